@@ -30,6 +30,8 @@ def arith(op, x, y):
         return x * y
     if op == "/":
         return x / y
+    if op == "**":
+        return x ** y
     raise ValueError(op)
 
 
@@ -38,7 +40,12 @@ def build_expr(af, e, pool):
     if t == "prior":
         return pool[e["ref"]]
     if t == "const":
+        if e.get("int"):                     # opt-in: an int constant (C01)
+            return int(unhex(e["v"]))
         return unhex(e["v"])
+    if t == "unary":                         # opt-in node kind (C01): -x, abs(x)
+        x = build_expr(af, e["a"], pool)
+        return -x if e["op"] == "neg" else abs(x)
     if t == "arith":
         x = build_expr(af, e["l"], pool)
         y = build_expr(af, e["r"], pool)
@@ -49,15 +56,20 @@ def build_expr(af, e, pool):
         tuples = []
         for arg, kind, extra in vclasses.SIGNATURES[e["cls"]]:
             sub = e["kw"].get(arg)
-            if sub is None:
-                continue
+            if sub is None or sub.get("default") or sub.get("implicit"):
+                continue                     # omitted keyword argument: the library supplies config-default priors
             if kind == "tuple":
-                tuples.append((arg, sub))
+                if sub.get("whole"):         # opt-in: a whole TuplePrior as keyword argument, members in the given order
+                    kw[arg] = af.TuplePrior(**{"%s_%d" % (arg, i): build_expr(af, sub["members"][i], pool) for i in sub["order"]})
+                else:
+                    tuples.append((arg, sub))
             else:
                 kw[arg] = build_expr(af, sub, pool)
         m = af.Model(cls, **kw)
         for arg, sub in tuples:
             for i, member in enumerate(sub["members"]):
+                if member.get("default"):
+                    continue
                 setattr(m, "%s_%d" % (arg, i), build_expr(af, member, pool))
         for name, sub in e.get("extra", []):
             setattr(m, name, build_expr(af, sub, pool))
@@ -80,6 +92,15 @@ def build_expr(af, e, pool):
             else:
                 items.append((k, build_expr(af, sub, pool)))
         form = e["form"]
+        if e.get("raw"):                     # opt-in: a raw list / dict (wrapped by the library: from_object / Model kwargs)
+            return [v for _, v in items] if form == "list" else {k: v for k, v in items}
+        if form == "varargs":
+            return af.Collection(*[v for _, v in items])
+        if form == "setitem":
+            c = af.Collection()
+            for k, v in items:
+                c[k] = v
+            return c
         if form == "list":
             return af.Collection([v for _, v in items])
         if form == "dict":
